@@ -99,9 +99,13 @@ static void rec_status(const void *b, size_t n)
 	memcpy(statusbuf + statuslen, b, n); statuslen += n;
 }
 
+/* optional write fault: the wf_k-th write() on the socket (from 0) fails with errno wf_errno */
+static int wf_k = -1, wf_errno, nsockwrites;
+
 static ssize_t h_write(int fd, const void *buf, size_t n)
 {
 	if (fd == FAKE_SD) {
+		if (wf_k >= 0 && nsockwrites++ == wf_k) { errno = wf_errno; return -1; }
 		if (nsent < 8192) { sent[nsent] = malloc(n ? n : 1); memcpy(sent[nsent], buf, n); sentl[nsent] = n; nsent++; }
 		return (ssize_t)n;
 	}
@@ -274,7 +278,9 @@ int main(void)
 	signal(SIGPIPE, SIG_IGN);
 	while (fgets(line, sizeof(line), stdin)) {
 		int n = tokenize(line, tok, 16);
-		if (n != 9 || strcmp(tok[0], "qr") != 0) { puts("bad-op"); continue; }
+		if ((n != 9 && n != 10) || strcmp(tok[0], "qr") != 0) { puts("bad-op"); continue; }
+		wf_k = -1;
+		if (n == 10 && tok[9][0] == 'W') { char *c = strchr(tok[9], ':'); wf_k = atoi(tok[9] + 1); wf_errno = c ? atoi(c + 1) : 5; }
 		fflush(stdout);
 		pid_t pid = fork();
 		if (pid == 0) {
